@@ -242,7 +242,7 @@ func c03(r *core.Run) {
 	// ---- D2: duplicates ----
 	r.Check("D2/K2/item-written-once", "every store to node.item outside the constructor is guarded by item == nil of the same node, and the item != nil arm returns an error", func(o *core.O) {
 		n := 0
-		for _, f := range p.PkgFuncs(searchPkg) {
+		for _, f := range b2PkgFuncs(p, searchPkg) {
 			for _, st := range core.StoresToField(f, "node.item") {
 				fa := st.Addr.(*ssa.FieldAddr)
 				n++
@@ -269,7 +269,7 @@ func c03(r *core.Run) {
 
 	// ---- D3: literal-first priority ----
 	var selectors, iterators, matchers, readers []*ssa.Function
-	for _, f := range p.PkgFuncs(searchPkg) {
+	for _, f := range b2PkgFuncs(p, searchPkg) {
 		sig := f.Signature
 		if sig.Results().Len() == 1 {
 			if _, isMap := sig.Results().At(0).Type().Underlying().(*types.Map); isMap && len(c03TouchesChildren(f)) > 0 {
@@ -300,7 +300,7 @@ func c03(r *core.Run) {
 		}
 		return false
 	}
-	for _, f := range p.PkgFuncs(searchPkg) {
+	for _, f := range b2PkgFuncs(p, searchPkg) {
 		if len(core.Instrs(f, isMatch)) > 0 {
 			readers = append(readers, f)
 		}
@@ -369,7 +369,7 @@ func c03(r *core.Run) {
 			allowed[f] = true
 		}
 		n := 0
-		for _, f := range p.PkgFuncs(searchPkg) {
+		for _, f := range b2PkgFuncs(p, searchPkg) {
 			for _, in := range c03TouchesChildren(f) {
 				n++
 				if allowed[f] {
@@ -596,10 +596,30 @@ func c03(r *core.Run) {
 				}
 			}
 			// recursion: the rest of the route starts behind the separator, and a failed sub-match is not a hit
-			for _, c := range core.Calls(f, core.CallMethod("search.Tree", "next")) {
+			for _, c := range core.Calls(f, c03IsDescend) {
 				a := core.Args(c)
-				if !c03SliceBehind(a[2]) {
-					o.Fail(p.InstrPos(c), "%s recurses on %s, not on route[i+1:] (the separator is not skipped)", core.FuncName(f), core.Describe(a[2]))
+				ri, ni := -1, -1
+				for i, x := range a {
+					if b, ok := x.Type().Underlying().(*types.Basic); ok && b.Kind() == types.String {
+						if ri >= 0 {
+							ri = -2
+						} else if ri == -1 {
+							ri = i
+						}
+					}
+					if strings.HasSuffix(x.Type().String(), "search.node") && ni < 0 {
+						ni = i
+					}
+				}
+				if ri < 0 || ni < 0 {
+					o.Unres("%s: recursive call %s: route/node arguments not identified", core.FuncName(f), core.Short(core.CalleeName(c)))
+					continue
+				}
+				if !b2AllOrigins(p, a[ri], c03SliceBehind) {
+					o.Fail(p.InstrPos(c), "%s recurses on %s, not on route[i+1:] (the separator is not skipped)", core.FuncName(f), core.Describe(a[ri]))
+				}
+				if !b2IsValue(c03NodeParam(f))(a[ni]) {
+					o.Fail(p.InstrPos(c), "%s does not descend into the child it was given", core.FuncName(f))
 				}
 				sub := core.BoolVal(b2IsValue(c.(*ssa.Call)))
 				if w := core.Requires(f, retTrue, sub); w != nil {
@@ -607,9 +627,6 @@ func c03(r *core.Run) {
 				}
 				if w := core.Requires(f, isBind, sub); w != nil {
 					o.Fail(p.InstrPos(w), "%s binds a parameter although the rest of the route did not match (stale binding after back-tracking)", core.FuncName(f))
-				}
-				if !b2IsValue(c03NodeParam(f))(a[1]) {
-					o.Fail(p.InstrPos(c), "%s does not descend into the child it was given", core.FuncName(f))
 				}
 			}
 		}
@@ -622,7 +639,7 @@ func c03(r *core.Run) {
 		for _, f := range readers {
 			isReader[f] = true
 		}
-		for _, f := range p.PkgFuncs(searchPkg) {
+		for _, f := range b2PkgFuncs(p, searchPkg) {
 			for _, st := range core.StoresToField(f, "Result.Item") {
 				n++
 				r.Fn(core.FuncName(f))
@@ -654,7 +671,7 @@ func c03(r *core.Run) {
 
 	r.Check("D3/K8/add-splits-at-separator", "add inserts the segment before the separator under the selector's map keyed by that segment and recurses on the rest behind the separator, into the child stored under that key", func(o *core.O) {
 		n := 0
-		for _, f := range p.PkgFuncs(searchPkg) {
+		for _, f := range b2PkgFuncs(p, searchPkg) {
 			if len(selectors) == 0 {
 				break
 			}
@@ -708,7 +725,7 @@ func c03(r *core.Run) {
 
 	r.Check("D3/K8/segment-prefix", "a segment cut off as route[:i] ends exactly at a separator: route[i] == '/' holds wherever the prefix is taken", func(o *core.O) {
 		n := 0
-		for _, f := range p.PkgFuncs(searchPkg) {
+		for _, f := range b2PkgFuncs(p, searchPkg) {
 			for _, in := range core.Instrs(f, func(in ssa.Instruction) bool {
 				sl, ok := in.(*ssa.Slice)
 				if !ok || sl.High == nil || sl.Low != nil {
@@ -1032,7 +1049,7 @@ func c03(r *core.Run) {
 
 	r.Check("D2/K2/child-created-only-when-absent", "a fresh node is stored into a children map only when the lookup of that very key in that very map found nothing (replacing an existing child drops its whole subtree: longer routes registered earlier become unreachable and can be registered twice)", func(o *core.O) {
 		n := 0
-		for _, f := range p.PkgFuncs("lib/search") {
+		for _, f := range b2PkgFuncs(p, "lib/search") {
 			for _, in := range core.Instrs(f, func(in ssa.Instruction) bool {
 				mu, ok := in.(*ssa.MapUpdate)
 				if !ok {
@@ -1182,4 +1199,30 @@ func c03NodeParam(f *ssa.Function) ssa.Value {
 		}
 	}
 	return nil
+}
+
+// c03IsDescend matches the recursive descent of a reader: a static call of an
+// in-package function (*node, string, *Result …) bool.
+func c03IsDescend(in ssa.Instruction) bool {
+	c, ok := in.(*ssa.Call)
+	if !ok || !b2CalleeIn(c, searchPkg) {
+		return false
+	}
+	sig := c.Call.StaticCallee().Signature
+	if sig.Results().Len() != 1 || sig.Results().At(0).Type().String() != "bool" {
+		return false
+	}
+	hasNode, hasStr, hasRes := false, false, false
+	for _, a := range c.Call.Args {
+		t := a.Type().String()
+		switch {
+		case strings.HasSuffix(t, "search.node"):
+			hasNode = true
+		case strings.HasSuffix(t, "search.Result"):
+			hasRes = true
+		case t == "string":
+			hasStr = true
+		}
+	}
+	return hasNode && hasStr && hasRes
 }
